@@ -1144,3 +1144,57 @@ fn plain_intact(data: &[Plain], seed: u64) -> bool {
         .enumerate()
         .all(|(i, e)| e.id as usize == i && e.payload == elems::payload_of(seed, i as u64))
 }
+
+/// Hash of everything observable about a run (C17 compares it between two builds of the same code).
+pub fn transcript_hash(rec: &RunRecord) -> u64 {
+    let mut w: Vec<u64> = Vec::new();
+    for c in &rec.calls {
+        w.push(c.tid as u64);
+        w.push(c.kind as u64);
+        w.push(c.arg as u64);
+        w.push(c.invoke);
+        w.push(c.ret);
+        hash_res(&c.res, &mut w);
+        match &c.res {
+            Res::Chunk { lens, exhausted, impossible, items, .. } => {
+                w.extend(lens.iter().map(|&l| l as u64));
+                w.push(*exhausted as u64);
+                w.push(*impossible as u64);
+                w.extend(items.iter().map(|o| o.payload));
+            }
+            Res::Item { obs, .. } => w.push(obs.payload),
+            Res::Panicked { msg, .. } => w.extend(msg.bytes().map(|b| b as u64)),
+            _ => {}
+        }
+    }
+    match &rec.seq_items {
+        Some(items) => {
+            w.push(1);
+            w.extend(items.iter().map(|o| o.raw));
+        }
+        None => w.push(0),
+    }
+    let l = &rec.ledger;
+    w.extend(l.dropped.iter().map(|&x| x as u64));
+    w.extend(l.clones.iter().map(|&x| x as u64));
+    w.extend(l.clone_drops.iter().map(|&x| x as u64));
+    w.push(l.double_drops.len() as u64);
+    w.push(l.foreign_drops as u64);
+    w.push(rec.leaked.0 as u64);
+    w.push(rec.leaked.1 as u64);
+    w.push(rec.source_intact as u64);
+    w.push(rec.source_drops_before_end as u64);
+    w.push(rec.sim.aborted as u64);
+    w.push(match &rec.sim.verdict {
+        None => 0,
+        Some(crate::sim::Verdict::Deadlock(_)) => 1,
+        Some(crate::sim::Verdict::StepCap(_)) => 2,
+    });
+    for m in &rec.unexpected_panics {
+        w.extend(m.bytes().map(|b| b as u64));
+    }
+    if let Some(m) = &rec.terminal_panic {
+        w.extend(m.bytes().map(|b| b as u64));
+    }
+    crate::rng::mix(&w)
+}
